@@ -216,6 +216,25 @@ for k, t in R10TXT.items():
 lv, eng, tech, text, note = checks["C07"]
 checks["C07"] = (lv, eng, tech + "; " + E3, text, note)
 
+R11TXT = {
+ "C02": " Eleventh round: frames kept by value while the variable they were decoded into receives the next frame; receive buffers overwritten before validation.",
+ "C03": " Eleventh round: application bytes without FPort through the encrypting methods (a reported success preserves the length).",
+ "C04": " Eleventh round: the receive buffer is overwritten between decoding and DecryptJoinAcceptPayload.",
+ "C06": " Eleventh round: DutyCycleReq 255 (LoRaWAN 1.0.0 - 1.0.2: become silent) is a value the encoder must accept.",
+ "C07": " Eleventh round: command sequences of length 0..3 on port 0 through EncryptFRMPayload, the wire and DecryptFRMPayload (the empty sequence included).",
+ "C09": " Eleventh round: a third registry state made of size-0 registrations.",
+ "C10": " Eleventh round: E3 - the first calls of two threads in a process that has not used the library yet, one process per schedule (preemption bound 1 quick / 2 thorough); sync.Once modelled as a critical section; mutating method calls on receiver fields and addresses handed to functions are write probes, addresses merely taken are reads.",
+ "C12": " Eleventh round: custom channels added in descending order of frequency in the channel histories.",
+ "C13": " Eleventh round: the LR-FHSS rows of EU868 / US915 / AU915 in the Regional Parameters table (modulation only).",
+ "C14": " Eleventh round: a custom channel on the frequency of a standard channel in the explored histories.",
+ "C16": " Eleventh round: E3 - receiver-field probes also in the join-server package (a buffer held by the handler).",
+ "C17": " Eleventh round: the string-typed members (ResultCode, MessageType, ProtocolVersion, ..) over the specification's spellings, the library's constants and their case / suffix neighbours.",
+ "C18": " Eleventh round: commands are decoded from a receive buffer with spare capacity that is overwritten afterwards.",
+}
+for k, t in R11TXT.items():
+    lv, eng, tech, text, note = checks[k]
+    checks[k] = (lv, eng, tech, text + t, note)
+
 def load_extra():
     p = os.path.join(V, "bin", "manifest_table.json")
     if os.path.exists(p):
